@@ -103,4 +103,19 @@ def read (native : Endian) (t : IntTy) (stream : List Byte) (format : Endian) : 
     let r ← convert native t result format
     pure (some r, stream.drop t.bytes)
 
+/-- several `io::write` calls on one stream -/
+def writeAll (native : Endian) (t : IntTy) (format : Endian) (vs : List Int) (stream : List Byte) : Except Fault (List Byte) :=
+  vs.foldlM (fun s v => write native t s v format) stream
+
+/-- at most `n` `io::read` calls on one stream, stopping at the first failure: the values and what is left -/
+def readN (native : Endian) (t : IntTy) (format : Endian) : Nat → List Byte → Except Fault (List Int × List Byte)
+  | 0, s => pure ([], s)
+  | n + 1, s => do
+    let (v, rest) ← read native t s format
+    match v with
+    | none => pure ([], rest)
+    | some x => do
+      let (vs, r) ← readN native t format n rest
+      pure (x :: vs, r)
+
 end Fcppt.C15
